@@ -1,1 +1,711 @@
-//! C28: not implemented yet.
+//! C28 — NTS key exchange negotiates only mutually supported parameters.
+//!
+//! Engine E-IN: exhaustive enumeration of configurations / request lists / scripted
+//! responses, every case one REAL TLS 1.3 session (rustls at both ends over
+//! `tokio::io::duplex`, PKI from `ntp-proto/test-keys`, exactly the rig of the crate's
+//! own KE tests).
+//!
+//! Part A  real `KeyExchangeClient` (every `ProtocolVersion` configuration) against the
+//!         real `KeyExchangeServer` (every ordered list without repetition over
+//!         {V3,V4,V5} as `accepted_versions`).
+//! Part B  harness TLS client sending a raw KE request whose next-protocol list is any
+//!         arrangement (ordered subset) of {NTPv4, draft-NTPv5, unknown[, unknown2]} and
+//!         whose AEAD list is any arrangement of {SIV-256, SIV-512, unknown[, unknown2]},
+//!         both record orders, against every server list. The harness owns the client end
+//!         of the TLS session, so it exports the RFC 8915 keys itself (own context
+//!         construction) and compares them with the keys inside the 8 cookies.
+//! Part C  real client (every configuration) against a harness TLS server that reads the
+//!         request (what was really offered, taken from the wire) and answers a scripted
+//!         response naming offered / unoffered / unknown / multiple / no protocol and
+//!         algorithm with 0/1/8/9 cookies; the harness owns the server end and exports
+//!         the keys itself.
+//!
+//! Oracle (from the statement): server choice = first entry of the client's protocol list
+//! that is in the accepted set, first entry of the client's algorithm list the server
+//! supports (SIV-256, SIV-512); exactly 8 cookies, each decoding under the server key set
+//! to the exported keys for exactly that pair; no cookies without a common protocol and
+//! algorithm; the client's result names only offered parameters and carries the same
+//! keys as the other end's export.
+use std::borrow::Cow;
+use std::sync::Arc;
+
+use tokio::io::{AsyncReadExt, AsyncWriteExt};
+
+use super::common::{self, Ctx};
+use crate::generic::NtpVersion;
+use crate::keyset::{KeySet, KeySetProvider};
+use crate::nts::verif_probe::gj::{self as rig, Rec};
+use crate::nts::{KeyExchangeClient, KeyExchangeServer};
+use crate::source::ProtocolVersion;
+
+const P4: u16 = 0;
+const P5: u16 = 0x8001;
+const PU: u16 = 0x1234;
+const PU2: u16 = 0x7fff;
+const A256: u16 = 15;
+const A512: u16 = 17;
+const AU: u16 = 99;
+const AU2: u16 = 0xffff;
+
+fn arrangements<T: Copy + PartialEq>(syms: &[T]) -> Vec<Vec<T>> {
+    fn rec<T: Copy + PartialEq>(syms: &[T], cur: &mut Vec<T>, out: &mut Vec<Vec<T>>) {
+        out.push(cur.clone());
+        for s in syms {
+            if !cur.contains(s) {
+                cur.push(*s);
+                rec(syms, cur, out);
+                cur.pop();
+            }
+        }
+    }
+    let mut out = Vec::new();
+    rec(syms, &mut Vec::new(), &mut out);
+    out
+}
+
+fn versions_str(v: &[NtpVersion]) -> String {
+    v.iter().map(|x| x.as_u8().to_string()).collect::<Vec<_>>().join(",")
+}
+
+fn parse_versions(s: &str) -> Vec<NtpVersion> {
+    s.split(',').filter(|x| !x.is_empty()).filter_map(|x| x.parse::<u8>().ok()).filter_map(|x| NtpVersion::try_from(x).ok()).collect()
+}
+
+/// Statement-level meaning of the server configuration: the set of next-protocol ids accepted.
+fn accepted_ids(v: &[NtpVersion]) -> Vec<u16> {
+    let mut out = Vec::new();
+    for x in v {
+        match x {
+            NtpVersion::V3 => {}
+            NtpVersion::V4 => out.push(P4),
+            NtpVersion::V5 => out.push(P5),
+        }
+    }
+    out
+}
+
+const PVS: [(&str, ProtocolVersion); 4] = [
+    ("V4", ProtocolVersion::V4),
+    ("V5", ProtocolVersion::V5),
+    ("V4UpgradingToV5", ProtocolVersion::V4UpgradingToV5 { tries_left: 8 }),
+    ("UpgradedToV5", ProtocolVersion::UpgradedToV5),
+];
+
+/// Statement-level meaning of the client configuration: what it may offer, in order.
+fn offer_of(pv: &str) -> Vec<u16> {
+    match pv {
+        "V4" => vec![P4],
+        "V5" => vec![P5],
+        _ => vec![P5, P4],
+    }
+}
+
+fn pv_by_name(name: &str) -> Option<ProtocolVersion> {
+    PVS.iter().find(|(n, _)| *n == name).map(|(_, p)| *p)
+}
+
+fn pv_id(pv: ProtocolVersion) -> u16 {
+    match pv {
+        ProtocolVersion::V4 => P4,
+        ProtocolVersion::V5 => P5,
+        // the client never reports these; map them to something that is never offered
+        _ => 0xeeee,
+    }
+}
+
+fn keyset() -> Arc<KeySet> {
+    // a key set with history, primary != 0
+    let mut p = KeySetProvider::new(2);
+    p.rotate();
+    p.rotate();
+    p.rotate();
+    p.get()
+}
+
+fn rt() -> tokio::runtime::Runtime {
+    tokio::runtime::Builder::new_current_thread().enable_time().start_paused(true).build().expect("runtime")
+}
+
+const HANG: std::time::Duration = std::time::Duration::from_secs(3600);
+
+struct Decoded {
+    alg: u16,
+    c2s: Vec<u8>,
+    s2c: Vec<u8>,
+}
+
+fn decode(ks: &KeySet, cookie: &[u8]) -> Option<Decoded> {
+    let d = ks.decode_cookie(cookie).ok()?;
+    Some(Decoded { alg: rig::aead_id(d.algorithm), c2s: d.c2s.key_bytes().to_vec(), s2c: d.s2c.key_bytes().to_vec() })
+}
+
+fn alg_of_keylen(n: usize) -> u16 {
+    match n {
+        32 => A256,
+        64 => A512,
+        _ => 0xeeee,
+    }
+}
+
+// ------------------------------------------------------------------ part A
+
+fn run_a(ctx: &Ctx, rt: &tokio::runtime::Runtime, pvname: &str, versions: &[NtpVersion]) -> String {
+    let trace = format!("A;{pvname};{}", versions_str(versions));
+    let Some(pv) = pv_by_name(pvname) else { return "bad trace".into() };
+    let ks = keyset();
+    let r = common::catch(|| {
+        rt.block_on(async {
+            let client = rig::client(pv);
+            let kex = rig::server(versions.to_vec(), vec![]);
+            let offered = rig::client_offer(&client);
+            let (c, s) = tokio::io::duplex(4096);
+            let cf = client.exchange_keys(c, "localhost".into(), Vec::<Cow<'static, str>>::new());
+            let sf = kex.handle_connection(s, &ks, || None::<()>);
+            let both = tokio::time::timeout(HANG, async { tokio::join!(cf, sf) }).await;
+            (offered, both)
+        })
+    });
+    ctx.inc("transitions");
+    ctx.inc("sessions_real_client_real_server");
+    let (offered, both) = match r {
+        Ok(v) => v,
+        Err(e) => {
+            ctx.violation("C28:panic", format!("key exchange panicked: {e}"), trace);
+            return format!("panic {e}");
+        }
+    };
+    let Ok((cres, sres)) = both else {
+        ctx.violation("C28:hang", "client and server both idle for an hour of virtual time", trace);
+        return "hang".into();
+    };
+    let want_offer = offer_of(pvname);
+    if offered.0 != want_offer || offered.1 != vec![A512, A256] {
+        ctx.violation(
+            "C28:client-offer-unexpected",
+            format!("client configured {pvname} offers protocols {:04x?} algorithms {:?}", offered.0, offered.1),
+            trace.clone(),
+        );
+    }
+    let acc = accepted_ids(versions);
+    let want_p = want_offer.iter().copied().find(|p| acc.contains(p));
+    let want_a = A512; // first of the client's list [512, 256] the server supports
+    let sdesc = match &sres {
+        Ok(None) => "Ok".to_string(),
+        Ok(Some(_)) => "Kept".to_string(),
+        Err(e) => format!("Err({})", rig::err_name(e)),
+    };
+    match (want_p, cres) {
+        (None, Ok(res)) => {
+            ctx.violation(
+                "C28:negotiated-without-overlap",
+                format!("client {pvname} vs server [{}]: client obtained {:?} although no protocol is common", versions_str(versions), res.protocol_version),
+                trace,
+            );
+            format!("client=Ok({:?}) server={sdesc}", res.protocol_version)
+        }
+        (None, Err(e)) => {
+            ctx.inc("a_no_common_protocol");
+            if sres.is_ok() {
+                ctx.violation("C28:server-ok-without-overlap", "server reports success without a common protocol", trace);
+            }
+            format!("client=Err({}) server={sdesc}", rig::err_name(&e))
+        }
+        (Some(p), Err(e)) => {
+            ctx.violation(
+                "C28:exchange-failed",
+                format!("client {pvname} vs server [{}]: common protocol {p:#06x} exists but the client got {}", versions_str(versions), rig::err_name(&e)),
+                trace,
+            );
+            format!("client=Err({}) server={sdesc}", rig::err_name(&e))
+        }
+        (Some(p), Ok(mut res)) => {
+            let got_p = pv_id(res.protocol_version);
+            let c2s = res.nts.c2s.key_bytes().to_vec();
+            let s2c = res.nts.s2c.key_bytes().to_vec();
+            let got_a = alg_of_keylen(c2s.len());
+            if got_p != p {
+                ctx.violation(
+                    "C28:wrong-protocol-selected",
+                    format!("client list {want_offer:04x?}, server accepts {acc:04x?}: first acceptable is {p:#06x}, negotiated {got_p:#06x}"),
+                    trace.clone(),
+                );
+            }
+            if got_a != want_a || s2c.len() != c2s.len() {
+                ctx.violation(
+                    "C28:wrong-algorithm-selected",
+                    format!("client list [17,15]: first supported is 17, negotiated key lengths {}/{}", c2s.len(), s2c.len()),
+                    trace.clone(),
+                );
+            }
+            if c2s == s2c {
+                ctx.violation("C28:keys-not-directional", "c2s key equals s2c key", trace.clone());
+            }
+            let mut n = 0;
+            let mut ok = 0;
+            while let Some(cookie) = res.nts.get_cookie() {
+                n += 1;
+                match decode(&ks, &cookie) {
+                    Some(d) if d.alg == got_a && d.c2s == c2s && d.s2c == s2c => ok += 1,
+                    Some(d) => ctx.violation(
+                        "C28:cookie-keys-differ",
+                        format!("cookie {n} decodes to algorithm {} / keys that differ from the client's keys", d.alg),
+                        trace.clone(),
+                    ),
+                    None => ctx.violation("C28:cookie-undecodable", format!("cookie {n} does not decode under the server key set"), trace.clone()),
+                }
+            }
+            if n != 8 {
+                ctx.violation("C28:cookie-count", format!("client holds {n} cookies, expected 8"), trace.clone());
+            }
+            if sres.is_err() {
+                ctx.violation("C28:server-error-on-success", format!("server returned {sdesc} for a successful exchange"), trace.clone());
+            }
+            ctx.add("cookies_decoded", ok);
+            ctx.inc(if got_p == P4 { "a_negotiated_v4" } else { "a_negotiated_v5" });
+            ctx.distinct(common::hash_of(&("A", pvname, versions_str(versions))));
+            format!("client=Ok({:?},alg={got_a},cookies={n},decoded_equal={ok}) server={sdesc}", res.protocol_version)
+        }
+    }
+}
+
+// ------------------------------------------------------------------ part B
+
+fn ke_request(protos: &[u16], algs: &[u16], aead_first: bool) -> Vec<u8> {
+    let p = Rec::new(0x8001, &rig::u16s_body(protos));
+    let a = Rec::new(0x8004, &rig::u16s_body(algs));
+    let eom = Rec::new(0x8000, &[]);
+    if aead_first { rig::enc(&[a, p, eom]) } else { rig::enc(&[p, a, eom]) }
+}
+
+fn run_b(
+    ctx: &Ctx,
+    rt: &tokio::runtime::Runtime,
+    connector: &tokio_rustls::TlsConnector,
+    kex: &KeyExchangeServer,
+    ks: &KeySet,
+    versions: &[NtpVersion],
+    request: &[u8],
+) -> String {
+    let trace = format!("B;{};{}", versions_str(versions), common::hex(request));
+    let r = common::catch(|| {
+        rt.block_on(async {
+            let (c, s) = tokio::io::duplex(4096);
+            let cf = async {
+                let mut tls = connector.connect(rig::localhost(), c).await.map_err(|e| format!("connect: {e}"))?;
+                tls.write_all(request).await.map_err(|e| format!("write: {e}"))?;
+                tls.flush().await.map_err(|e| format!("flush: {e}"))?;
+                let mut resp = Vec::new();
+                let clean = tls.read_to_end(&mut resp).await.is_ok();
+                Ok::<_, String>((tls, resp, clean))
+            };
+            let sf = kex.handle_connection(s, ks, || None::<()>);
+            tokio::time::timeout(HANG, async { tokio::join!(cf, sf) }).await
+        })
+    });
+    ctx.inc("transitions");
+    ctx.inc("sessions_raw_client_real_server");
+    let both = match r {
+        Ok(v) => v,
+        Err(e) => {
+            ctx.violation("C28:panic", format!("server panicked: {e}"), trace);
+            return format!("panic {e}");
+        }
+    };
+    let Ok((cres, sres)) = both else {
+        ctx.violation("C28:hang", "server idle for an hour of virtual time with the request delivered", trace);
+        return "hang".into();
+    };
+    let (tls, resp, clean) = match cres {
+        Ok(v) => v,
+        Err(e) => {
+            ctx.violation("C28:rig", format!("harness TLS client failed: {e}"), trace);
+            return format!("rig {e}");
+        }
+    };
+    let sdesc = match &sres {
+        Ok(None) => "Ok".to_string(),
+        Ok(Some(_)) => "Kept".to_string(),
+        Err(e) => format!("Err({})", rig::err_name(e)),
+    };
+    // what was asked, from the request bytes themselves
+    let req = rig::dec(request).unwrap_or_default();
+    let protos = req.iter().find(|r| r.kind() == 1).and_then(|r| r.u16s()).unwrap_or_default();
+    let algs = req.iter().find(|r| r.kind() == 4).and_then(|r| r.u16s()).unwrap_or_default();
+    let acc = accepted_ids(versions);
+    let want_p = protos.iter().copied().find(|p| acc.contains(p));
+    let want_a = algs.iter().copied().find(|a| *a == A256 || *a == A512);
+
+    let Some(recs) = rig::dec(&resp) else {
+        ctx.violation("C28:response-framing", format!("response is not a whole number of records: {}", common::hex(&resp)), trace);
+        return "bad framing".into();
+    };
+    let cookies: Vec<&Rec> = recs.iter().filter(|r| r.kind() == 5).collect();
+    let rp: Vec<Vec<u16>> = recs.iter().filter(|r| r.kind() == 1).filter_map(|r| r.u16s()).collect();
+    let ra: Vec<Vec<u16>> = recs.iter().filter(|r| r.kind() == 4).filter_map(|r| r.u16s()).collect();
+    let errors = recs.iter().filter(|r| r.kind() == 2).count();
+    let obs;
+    match (want_p, want_a) {
+        (Some(p), Some(a)) => {
+            if rp != vec![vec![p]] {
+                ctx.violation(
+                    "C28:wrong-protocol-selected",
+                    format!("client list {protos:04x?}, server accepts {acc:04x?}: first acceptable is {p:#06x}, response names {rp:04x?}"),
+                    trace.clone(),
+                );
+            }
+            if ra != vec![vec![a]] {
+                ctx.violation(
+                    "C28:wrong-algorithm-selected",
+                    format!("client list {algs:?}: first supported is {a}, response names {ra:?}"),
+                    trace.clone(),
+                );
+            }
+            if cookies.len() != 8 {
+                ctx.violation("C28:cookie-count", format!("{} cookies issued, expected 8", cookies.len()), trace.clone());
+            }
+            if errors != 0 || sres.is_err() || !clean {
+                ctx.violation("C28:server-error-on-success", format!("server result {sdesc}, {errors} error records, clean close {clean}"), trace.clone());
+            }
+            let exported = rig::export(tls.get_ref().1, p, a);
+            let mut ok = 0u64;
+            match &exported {
+                None => ctx.violation("C28:rig", "harness key export failed", trace.clone()),
+                Some((c2s, s2c)) => {
+                    for (i, c) in cookies.iter().enumerate() {
+                        match decode(ks, &c.body) {
+                            Some(d) if d.alg == a && &d.c2s == c2s && &d.s2c == s2c => ok += 1,
+                            Some(d) => {
+                                // say which export it is, if any, to make the report useful
+                                let mut which = "no export of this session".to_string();
+                                for pp in [P4, P5, PU, PU2] {
+                                    for aa in [A256, A512] {
+                                        if let Some((x, y)) = rig::export(tls.get_ref().1, pp, aa) {
+                                            if x == d.c2s && y == d.s2c {
+                                                which = format!("the export for protocol {pp:#06x} algorithm {aa}");
+                                            } else if y == d.c2s && x == d.s2c {
+                                                which = format!("the export for protocol {pp:#06x} algorithm {aa} with c2s/s2c swapped");
+                                            }
+                                        }
+                                    }
+                                }
+                                ctx.violation(
+                                    "C28:cookie-keys-not-exported-keys",
+                                    format!("cookie {i} (algorithm {}) does not hold the keys exported for protocol {p:#06x} algorithm {a}; it holds {which}", d.alg),
+                                    trace.clone(),
+                                );
+                            }
+                            None => ctx.violation("C28:cookie-undecodable", format!("cookie {i} does not decode under the server key set"), trace.clone()),
+                        }
+                    }
+                }
+            }
+            let distinct: std::collections::BTreeSet<&Vec<u8>> = cookies.iter().map(|c| &c.body).collect();
+            ctx.add("cookies_decoded", ok);
+            ctx.inc(if p == P4 { "b_selected_v4" } else { "b_selected_v5" });
+            ctx.inc(if a == A256 { "b_selected_siv256" } else { "b_selected_siv512" });
+            if protos.first() != Some(&p) {
+                ctx.inc("b_selected_protocol_not_first_in_list");
+            }
+            if algs.first() != Some(&a) {
+                ctx.inc("b_selected_algorithm_not_first_in_list");
+            }
+            ctx.distinct(common::hash_of(&("B", versions_str(versions), request)));
+            obs = format!("select p={p:#06x} a={a}: response p={rp:04x?} a={ra:?} cookies={} distinct={} decoded_equal_export={ok} server={sdesc}", cookies.len(), distinct.len());
+        }
+        _ => {
+            // no common protocol or no common algorithm: nothing may be issued
+            if !cookies.is_empty() {
+                ctx.violation(
+                    "C28:cookies-without-overlap",
+                    format!("client lists {protos:04x?}/{algs:?}, server accepts {acc:04x?}: {} cookies issued", cookies.len()),
+                    trace.clone(),
+                );
+            }
+            if rp.iter().any(|l| l.iter().any(|p| !protos.contains(p) || !acc.contains(p))) {
+                ctx.violation("C28:wrong-protocol-selected", format!("response names protocol {rp:04x?} not common to {protos:04x?} and {acc:04x?}"), trace.clone());
+            }
+            if ra.iter().any(|l| !l.is_empty()) && want_a.is_none() {
+                ctx.violation("C28:wrong-algorithm-selected", format!("response names algorithm {ra:?}, client offered {algs:?}"), trace.clone());
+            }
+            if sres.is_ok() {
+                ctx.violation("C28:server-ok-without-overlap", "server reports success without common parameters", trace.clone());
+            }
+            ctx.inc(if want_p.is_none() { "b_no_common_protocol" } else { "b_no_common_algorithm" });
+            obs = format!("no overlap (p={want_p:04x?} a={want_a:?}): response p={rp:04x?} a={ra:?} cookies={} errors={errors} server={sdesc}", cookies.len());
+        }
+    }
+    obs
+}
+
+// ------------------------------------------------------------------ part C
+
+/// `shape`: 0 plain, 1 + server and port records, 2 AEAD record before the next-protocol
+/// record, 3 + an unknown non-critical record up front, 4 + keep-alive record.
+fn scripted_response(protos: &[u16], algs: &[u16], ncookies: usize, shape: u8) -> Vec<u8> {
+    let p = Rec::new(0x8001, &rig::u16s_body(protos));
+    let a = Rec::new(0x8004, &rig::u16s_body(algs));
+    let mut recs = Vec::new();
+    if shape == 3 {
+        recs.push(Rec::new(0x0123, &[9, 9, 9]));
+    }
+    if shape == 2 {
+        recs.push(a);
+        recs.push(p);
+    } else {
+        recs.push(p);
+        recs.push(a);
+    }
+    for i in 0..ncookies {
+        recs.push(Rec::new(5, &vec![i as u8 + 1; 100]));
+    }
+    if shape == 1 {
+        recs.push(Rec::new(0x8006, b"ntp.example.org"));
+        recs.push(Rec::new(0x8007, &4123u16.to_be_bytes()));
+    }
+    if shape == 4 {
+        recs.push(Rec::new(8, &[]));
+    }
+    recs.push(Rec::new(0x8000, &[]));
+    rig::enc(&recs)
+}
+
+fn run_c(
+    ctx: &Ctx,
+    rt: &tokio::runtime::Runtime,
+    acceptor: &tokio_rustls::TlsAcceptor,
+    pvname: &str,
+    response: &[u8],
+) -> String {
+    let trace = format!("C;{pvname};{}", common::hex(response));
+    let Some(pv) = pv_by_name(pvname) else { return "bad trace".into() };
+    let r = common::catch(|| {
+        rt.block_on(async {
+            let client = rig::client(pv);
+            let (c, s) = tokio::io::duplex(4096);
+            let cf = client.exchange_keys(c, "localhost".into(), Vec::<Cow<'static, str>>::new());
+            let sf = async {
+                let mut tls = acceptor.accept(s).await.map_err(|e| format!("accept: {e}"))?;
+                let req = rig::read_message(&mut tls).await.map_err(|(_, e)| format!("request: {e}"))?;
+                tls.write_all(response).await.map_err(|e| format!("write: {e}"))?;
+                tls.flush().await.map_err(|e| format!("flush: {e}"))?;
+                let _ = tls.shutdown().await;
+                Ok::<_, String>((tls, req))
+            };
+            tokio::time::timeout(HANG, async { tokio::join!(cf, sf) }).await
+        })
+    });
+    ctx.inc("transitions");
+    ctx.inc("sessions_real_client_scripted_server");
+    let both = match r {
+        Ok(v) => v,
+        Err(e) => {
+            ctx.violation("C28:panic", format!("client panicked: {e}"), trace);
+            return format!("panic {e}");
+        }
+    };
+    let Ok((cres, sres)) = both else {
+        ctx.violation("C28:hang", "client idle for an hour of virtual time with the response delivered", trace);
+        return "hang".into();
+    };
+    let (tls, req) = match sres {
+        Ok(v) => v,
+        Err(e) => {
+            ctx.violation("C28:rig", format!("harness TLS server failed: {e}"), trace);
+            return format!("rig {e}");
+        }
+    };
+    // the offer as it went over the wire
+    let off_p = req.iter().find(|r| r.kind() == 1).and_then(|r| r.u16s()).unwrap_or_default();
+    let off_a = req.iter().find(|r| r.kind() == 4).and_then(|r| r.u16s()).unwrap_or_default();
+    if off_p != offer_of(pvname) {
+        ctx.violation("C28:client-offer-unexpected", format!("client configured {pvname} sent next-protocol list {off_p:04x?}"), trace.clone());
+    }
+    let recs = rig::dec(response).unwrap_or_default();
+    let rp: Vec<u16> = recs.iter().find(|r| r.kind() == 1).and_then(|r| r.u16s()).unwrap_or_default();
+    let ra: Vec<u16> = recs.iter().find(|r| r.kind() == 4).and_then(|r| r.u16s()).unwrap_or_default();
+    let ncookies = recs.iter().filter(|r| r.kind() == 5).count();
+    let valid = rp.len() == 1 && ra.len() == 1 && off_p.contains(&rp[0]) && off_a.contains(&ra[0]) && (ra[0] == A256 || ra[0] == A512) && ncookies >= 1;
+    match cres {
+        Ok(res) => {
+            ctx.inc("c_client_accepts");
+            let p = pv_id(res.protocol_version);
+            let c2s = res.nts.c2s.key_bytes().to_vec();
+            let s2c = res.nts.s2c.key_bytes().to_vec();
+            let a = alg_of_keylen(c2s.len());
+            let mut bad = false;
+            if !off_p.contains(&p) {
+                bad = true;
+                ctx.violation(
+                    "C28:client-adopts-unoffered-protocol",
+                    format!("client configured {pvname} offered next-protocol {off_p:04x?}; the response named {rp:04x?} and the client returned Ok with protocol_version {:?}", res.protocol_version),
+                    trace.clone(),
+                );
+            }
+            if !off_a.contains(&a) {
+                bad = true;
+                ctx.violation(
+                    "C28:client-adopts-unoffered-algorithm",
+                    format!("client offered AEAD {off_a:?}; the response named {ra:?} and the client returned Ok with {}-byte keys", c2s.len()),
+                    trace.clone(),
+                );
+            }
+            if rp != vec![p] || ra != vec![a] {
+                bad = true;
+                ctx.violation(
+                    "C28:client-adopts-unnamed",
+                    format!("response named protocol {rp:04x?} algorithm {ra:?}; client adopted {p:#06x}/{a}"),
+                    trace.clone(),
+                );
+            }
+            match rig::export(tls.get_ref().1, p, a) {
+                Some((x, y)) if x == c2s && y == s2c => ctx.inc("c_client_keys_equal_server_export"),
+                _ => {
+                    bad = true;
+                    ctx.violation(
+                        "C28:client-keys-differ",
+                        format!("client keys are not the server-side export for protocol {p:#06x} algorithm {a}"),
+                        trace.clone(),
+                    );
+                }
+            }
+            if ncookies == 0 {
+                bad = true;
+                ctx.violation("C28:client-accepts-without-cookies", "client returned Ok for a response without cookies", trace.clone());
+            }
+            if !bad {
+                ctx.distinct(common::hash_of(&("C", pvname, response)));
+            }
+            format!("offered p={off_p:04x?} a={off_a:?}; response p={rp:04x?} a={ra:?} cookies={ncookies}; client=Ok({:?},alg={a})", res.protocol_version)
+        }
+        Err(e) => {
+            ctx.inc("c_client_rejects");
+            if valid {
+                ctx.violation(
+                    "C28:client-rejects-valid",
+                    format!("response names offered protocol {rp:04x?} and algorithm {ra:?} with {ncookies} cookies but the client failed with {}", rig::err_name(&e)),
+                    trace.clone(),
+                );
+            } else {
+                ctx.distinct(common::hash_of(&("C", pvname, response)));
+            }
+            format!("offered p={off_p:04x?} a={off_a:?}; response p={rp:04x?} a={ra:?} cookies={ncookies}; client=Err({})", rig::err_name(&e))
+        }
+    }
+}
+
+// ------------------------------------------------------------------ driver
+
+fn replay(ctx: &Ctx, trace: &str) -> String {
+    let parts: Vec<&str> = trace.split(';').collect();
+    let rt = rt();
+    match parts.as_slice() {
+        ["A", pv, versions] => run_a(ctx, &rt, pv, &parse_versions(versions)),
+        ["B", versions, hexreq] => {
+            let versions = parse_versions(versions);
+            let Some(req) = common::unhex(hexreq) else { return "bad hex".into() };
+            let kex = rig::server(versions.clone(), vec![]);
+            let ks = keyset();
+            run_b(ctx, &rt, &rig::raw_connector(), &kex, &ks, &versions, &req)
+        }
+        ["C", pv, hexresp] => {
+            let Some(resp) = common::unhex(hexresp) else { return "bad hex".into() };
+            run_c(ctx, &rt, &rig::raw_acceptor(), pv, &resp)
+        }
+        _ => "unknown trace".into(),
+    }
+}
+
+#[test]
+fn check() {
+    let ctx = Ctx::new("C28");
+    if let Some(t) = common::replay_trace() {
+        let a = replay(&ctx, &t);
+        let b = replay(&ctx, &t);
+        common::report_replay("C28", &a, &b, ctx.violation_count() > 0);
+        return;
+    }
+    let quick = ctx.quick();
+    ctx.rule(
+        "every case is one real TLS 1.3 key-exchange session. A: 4 client configurations x 16 ordered server version lists over \
+         {3,4,5}. B: raw KE requests: every arrangement (ordered subset incl. empty) of {v4,v5,unknown} [thorough: + a 2nd unknown] \
+         as next-protocol list x every arrangement of {SIV256,SIV512,unknown} [thorough: + 2nd unknown] as AEAD list x both record \
+         orders x 16 server lists. C: 4 client configurations x scripted responses naming protocol list in {[v4],[v5],[unk],[v5,v4],[]} \
+         x AEAD list in {[15],[17],[99],[17,15],[]} x cookies in {0,1,8,9} x shape in {plain, +server+port} [thorough: + AEAD-first, + unknown non-critical record, + keep-alive]. Distinct & \
+         non-trivial = a session in which parameters were negotiated and all keys/cookies verified (A,B), or a scripted response \
+         with a distinct (config, bytes) that the client handled as the statement demands (C).",
+    );
+    ctx.assume("the TLS exporter (rustls) yields the same bytes at both ends of a session; the harness' own RFC 8915 context construction (protocol id BE || AEAD id BE || 0/1) is the meaning of 'the keys exported for that protocol and algorithm'");
+    ctx.assume("KeySet::decode_cookie is the meaning of 'cookie decodes under the server key set' (its own properties are C26/C27)");
+    ctx.assume("test-keys/ certificates are valid and verifiable offline, as in the crate's own KE tests");
+    ctx.assume("the server supports exactly AEAD 15 (SIV-CMAC-256) and 17 (SIV-CMAC-512); the client's adopted algorithm is observed through its key length (32 / 64 bytes)");
+
+    let server_lists = arrangements(&[NtpVersion::V3, NtpVersion::V4, NtpVersion::V5]);
+
+    // ---- A
+    let cases_a: Vec<(usize, usize)> = (0..PVS.len()).flat_map(|p| (0..server_lists.len()).map(move |s| (p, s))).collect();
+    common::par_for_with(cases_a.len() as u64, 1, rt, |rt, i| {
+        let (p, s) = cases_a[i as usize];
+        let obs = run_a(&ctx, rt, PVS[p].0, &server_lists[s]);
+        ctx.inc("evaluations");
+        if i % 13 == 5 {
+            ctx.sample(format!("A client {} vs server [{}]: {obs}", PVS[p].0, versions_str(&server_lists[s])));
+        }
+    });
+
+    // ---- B
+    let (psyms, asyms): (&[u16], &[u16]) = if quick { (&[P4, P5, PU], &[A256, A512, AU]) } else { (&[P4, P5, PU, PU2], &[A256, A512, AU, AU2]) };
+    let plists = arrangements(psyms);
+    let alists = arrangements(asyms);
+    let servers: Vec<KeyExchangeServer> = server_lists.iter().map(|v| rig::server(v.clone(), vec![])).collect();
+    let ks = keyset();
+    let connector = rig::raw_connector();
+    let nb = (server_lists.len() * plists.len() * alists.len() * 2) as u64;
+    ctx.set("b_protocol_lists", plists.len() as u64);
+    ctx.set("b_algorithm_lists", alists.len() as u64);
+    common::par_for_with(nb, 16, rt, |rt, i| {
+        let mut x = i as usize;
+        let order = x % 2;
+        x /= 2;
+        let ai = x % alists.len();
+        x /= alists.len();
+        let pi = x % plists.len();
+        x /= plists.len();
+        let si = x;
+        let req = ke_request(&plists[pi], &alists[ai], order == 1);
+        let obs = run_b(&ctx, rt, &connector, &servers[si], &ks, &server_lists[si], &req);
+        ctx.inc("evaluations");
+        if i % 1499 == 77 {
+            ctx.sample(format!("B server [{}] request p={:04x?} a={:?}: {obs}", versions_str(&server_lists[si]), plists[pi], alists[ai]));
+        }
+    });
+
+    // ---- C
+    let rps: [&[u16]; 5] = [&[P4], &[P5], &[PU], &[P5, P4], &[]];
+    let ras: [&[u16]; 5] = [&[A256], &[A512], &[AU], &[A512, A256], &[]];
+    let ncs = [0usize, 1, 8, 9];
+    let acceptor = rig::raw_acceptor();
+    let mut cases_c = Vec::new();
+    for p in 0..PVS.len() {
+        for rp in rps {
+            for ra in ras {
+                for nc in ncs {
+                    for shape in 0..(if quick { 2u8 } else { 5 }) {
+                        cases_c.push((p, scripted_response(rp, ra, nc, shape)));
+                    }
+                }
+            }
+        }
+    }
+    common::par_for_with(cases_c.len() as u64, 4, rt, |rt, i| {
+        let (p, resp) = &cases_c[i as usize];
+        let obs = run_c(&ctx, rt, &acceptor, PVS[*p].0, resp);
+        ctx.inc("evaluations");
+        if i % 97 == 41 {
+            ctx.sample(format!("C client {}: {obs}", PVS[*p].0));
+        }
+    });
+
+    ctx.set("states", ctx.get("transitions"));
+    ctx.exhaustive(true);
+    ctx.finish();
+}
